@@ -75,6 +75,7 @@ type Req struct {
 	AbortMs int    `json:"abort,omitempty"` // client gives up after this long (0 = never)
 	WaitMs  int    `json:"wait,omitempty"`
 	After   string `json:"after,omitempty"` // command that must have returned first
+	Sync    bool   `json:"sync,omitempty"`  // the lane waits for this request's answer before going on
 }
 
 // ProbeOutcome: how a fake target treats one health probe.
